@@ -1,19 +1,25 @@
 """Shared by tools/c10.py and tools/c11.py: abstract objects (the same shape as model/Http.v),
-their SDK / JSON / XML renderings, fixture stores, URL construction, response canonicalisation.
+their SDK / JSON / XML renderings, response and store canonicalisation into rows of integers
+(mirror of model/HttpObs.v), Coq term printers, the SDK driver.
 
 Abstract values (plain Python data, mirrored 1:1 by the Coq model):
   shell   = {"k": "shell", "id": str, "ids": str|None, "tok": int, "refs": [submodel id str]}
-  submodel= {"k": "sm", "id": str, "ids": str|None, "tok": int, "quals": [(type, val)], "elems": [elem]}
+  submodel= {"k": "sm", "id": str, "ids": str|None, "tok": int, "quals": [(type str, val int)], "elems": [elem]}
   cd      = {"k": "cd", "id": str, "ids": str|None, "tok": int}
-  elem    = {"mt": "Property"|"SubmodelElementCollection"|"SubmodelElementList"|"File"|"Blob"|"Range",
-             "ids": str|None, "tok": int, "quals": [(type, val)], "children": [elem],
-             "ctype": str, "value": str|None}     (ctype/value: File and Blob only)
-`tok` stands for "all other attributes": it is carried by `category` ("T<tok>"); for shells by
-assetInformation.globalAssetId ("urn:asset:<tok>").
+  elem    = {"mt": "Property"|"Range"|"SubmodelElementCollection"|"SubmodelElementList"|"File"|"Blob",
+             "ids": str|None, "tok": int, "quals": [...], "children": [elem], "ctype": int,
+             "val": None | ("path", str) | ("data", int)}
+  qual    = {"k": "qual", "type": str, "val": int};  ref = {"k": "ref", "id": str};  ai = {"k": "ai", "tok": int}
+`tok` stands for "all other attributes": carried by `description` ({"en": "T<tok>"}); for shells by
+assetInformation.globalAssetId ("urn:asset:<tok>").  ctype / data are indices into CTYPES / CONTENTS.
 """
 import base64
+import binascii
 import io
 import json
+import re
+import sys
+import urllib.parse
 
 from lxml import etree
 
@@ -24,41 +30,45 @@ from basyx.aas.adapter._generic import XML_NS_MAP
 
 NS = "{" + XML_NS_MAP["aas"] + "}"
 BASE = "/api/v3.0"
-HOST = "http://localhost"
+CTYPES = ["text/plain", "application/pdf"]
+CONTENTS = [b"", b"hello", b"\x00\xff bin", b"other"]
+MT = {"Property": 1, "Range": 2, "SubmodelElementCollection": 3, "SubmodelElementList": 4, "File": 5, "Blob": 6}
+MTC = {"Property": "MProp", "Range": "MRange", "SubmodelElementCollection": "MColl", "SubmodelElementList": "MList",
+       "File": "MFile", "Blob": "MBlob"}
 
 
 def b64(s):
     return base64.urlsafe_b64encode(s.encode("utf-8")).decode("ascii")
 
 
-def b64_nopad(s):
-    return b64(s).rstrip("=")
-
-
 # ------------------------------------------------------------------ abstract -> SDK objects
 
+def _desc(tok):
+    return model.MultiLanguageTextType({"en": f"T{tok}"})
+
+
 def mk_quals(quals):
-    return [model.Qualifier(t, model.datatypes.String, v) for (t, v) in quals]
+    return [model.Qualifier(t, model.datatypes.String, str(v)) for (t, v) in quals]
 
 
 def mk_elem(e):
-    common = dict(category=f"T{e['tok']}", qualifier=mk_quals(e.get("quals", [])))
+    common = dict(description=_desc(e["tok"]), qualifier=mk_quals(e.get("quals", [])))
     mt = e["mt"]
+    val = e.get("val")
+    ct = CTYPES[e.get("ctype", 0)]
     if mt == "Property":
-        return model.Property(e["ids"], model.datatypes.String, value=f"v{e['tok']}", **common)
+        return model.Property(e["ids"], model.datatypes.String, value="x", **common)
     if mt == "Range":
-        return model.Range(e["ids"], model.datatypes.Int, min=e["tok"], max=e["tok"] + 1, **common)
+        return model.Range(e["ids"], model.datatypes.Int, min=1, max=2, **common)
     if mt == "SubmodelElementCollection":
         return model.SubmodelElementCollection(e["ids"], value=[mk_elem(c) for c in e.get("children", [])], **common)
     if mt == "SubmodelElementList":
         return model.SubmodelElementList(e["ids"], model.Property, value=[mk_elem(c) for c in e.get("children", [])],
                                          value_type_list_element=model.datatypes.String, **common)
     if mt == "File":
-        return model.File(e["ids"], content_type=e.get("ctype", "text/plain"), value=e.get("value"), **common)
+        return model.File(e["ids"], content_type=ct, value=None if val is None else val[1], **common)
     if mt == "Blob":
-        v = e.get("value")
-        return model.Blob(e["ids"], content_type=e.get("ctype", "text/plain"),
-                          value=None if v is None else v.encode("utf-8"), **common)
+        return model.Blob(e["ids"], content_type=ct, value=None if val is None else CONTENTS[val[1]], **common)
     raise ValueError(mt)
 
 
@@ -73,15 +83,15 @@ def mk_obj(a):
             model.AssetInformation(model.AssetKind.INSTANCE, global_asset_id=f"urn:asset:{a['tok']}"),
             a["id"], id_short=a["ids"], submodel={sm_ref(s) for s in a.get("refs", [])})
     if k == "sm":
-        return model.Submodel(a["id"], id_short=a["ids"], category=f"T{a['tok']}",
+        return model.Submodel(a["id"], id_short=a["ids"], description=_desc(a["tok"]),
                               qualifier=mk_quals(a.get("quals", [])),
                               submodel_element=[mk_elem(e) for e in a.get("elems", [])])
     if k == "cd":
-        return model.ConceptDescription(a["id"], id_short=a["ids"], category=f"T{a['tok']}")
+        return model.ConceptDescription(a["id"], id_short=a["ids"], description=_desc(a["tok"]))
     if k == "elem":
         return mk_elem(a)
     if k == "qual":
-        return model.Qualifier(a["type"], model.datatypes.String, a["val"])
+        return model.Qualifier(a["type"], model.datatypes.String, str(a["val"]))
     if k == "ref":
         return sm_ref(a["id"])
     if k == "ai":
@@ -106,26 +116,49 @@ def _tok(s, prefix):
     return -1
 
 
+def _int(s):
+    try:
+        return int(s)
+    except (TypeError, ValueError):
+        return -1
+
+
+def _tokd(d):
+    ds = d.get("description")
+    if isinstance(ds, list) and len(ds) == 1 and isinstance(ds[0], dict):
+        return _tok(ds[0].get("text"), "T")
+    return -1
+
+
+def _idx(pool, v):
+    try:
+        return pool.index(v)
+    except ValueError:
+        return 99
+
+
 def abs_quals_json(d):
-    return [(q.get("type"), q.get("value")) for q in d.get("qualifiers", [])]
+    return [(q.get("type"), _int(q.get("value"))) for q in d.get("qualifiers", [])]
 
 
 def abs_elem_json(d):
     mt = d.get("modelType")
-    r = {"mt": mt, "ids": d.get("idShort"), "tok": _tok(d.get("category"), "T"), "quals": abs_quals_json(d),
-         "children": [], "ctype": None, "value": None}
+    r = {"mt": mt, "ids": d.get("idShort"), "tok": _tokd(d), "quals": abs_quals_json(d),
+         "children": [], "ctype": 0, "val": None}
     if mt in ("SubmodelElementCollection", "SubmodelElementList"):
         r["children"] = [abs_elem_json(c) for c in d.get("value", [])]
     if mt == "File":
-        r["ctype"], r["value"] = d.get("contentType"), d.get("value")
+        r["ctype"] = _idx(CTYPES, d.get("contentType"))
+        r["val"] = None if d.get("value") is None else ("path", d.get("value"))
     if mt == "Blob":
         v = d.get("value")
-        r["ctype"], r["value"] = d.get("contentType"), (None if v is None else base64.b64decode(v).decode("utf-8"))
+        r["ctype"] = _idx(CTYPES, d.get("contentType"))
+        r["val"] = None if v is None else ("data", _idx(CONTENTS, base64.b64decode(v)))
     return r
 
 
 def abs_ref_json(d):
-    return {"k": "ref", "keys": [(k.get("type"), k.get("value")) for k in d.get("keys", [])]}
+    return {"k": "keys", "keys": [(k.get("type"), k.get("value")) for k in d.get("keys", [])]}
 
 
 def abs_json(d):
@@ -146,10 +179,10 @@ def abs_json(d):
                 "tok": _tok(d.get("assetInformation", {}).get("globalAssetId"), "urn:asset:"),
                 "refs": [r["keys"][0]["value"] for r in d.get("submodels", [])]}
     if mt == "Submodel":
-        return {"k": "sm", "id": d.get("id"), "ids": d.get("idShort"), "tok": _tok(d.get("category"), "T"),
+        return {"k": "sm", "id": d.get("id"), "ids": d.get("idShort"), "tok": _tokd(d),
                 "quals": abs_quals_json(d), "elems": [abs_elem_json(e) for e in d.get("submodelElements", [])]}
     if mt == "ConceptDescription":
-        return {"k": "cd", "id": d.get("id"), "ids": d.get("idShort"), "tok": _tok(d.get("category"), "T")}
+        return {"k": "cd", "id": d.get("id"), "ids": d.get("idShort"), "tok": _tokd(d)}
     if mt is not None:
         r = abs_elem_json(d)
         r["k"] = "elem"
@@ -157,7 +190,7 @@ def abs_json(d):
     if "keys" in d and "type" in d:
         return abs_ref_json(d)
     if "type" in d and "valueType" in d:
-        return {"k": "qual", "type": d.get("type"), "val": d.get("value")}
+        return {"k": "qual", "type": d.get("type"), "val": _int(d.get("value"))}
     if "assetKind" in d:
         return {"k": "ai", "tok": _tok(d.get("globalAssetId"), "urn:asset:")}
     return {"k": "unknown", "keys": sorted(d)}
@@ -168,37 +201,51 @@ def _xt(el, name):
     return None if c is None else (c.text or "")
 
 
+def _tokx(el):
+    d = el.find(NS + "description")
+    if d is not None and len(d) == 1:
+        return _tok(_xt(d[0], "text"), "T")
+    return -1
+
+
 def abs_quals_xml(el):
     qs = el.find(NS + "qualifiers")
-    return [] if qs is None else [(_xt(q, "type"), _xt(q, "value")) for q in qs]
+    return [] if qs is None else [(_xt(q, "type"), _int(_xt(q, "value"))) for q in qs]
 
 
 XML_MT = {"property": "Property", "range": "Range", "submodelElementCollection": "SubmodelElementCollection",
           "submodelElementList": "SubmodelElementList", "file": "File", "blob": "Blob"}
 
 
-def abs_elem_xml(el, tagname=None):
-    tag = tagname or etree.QName(el).localname
-    mt = XML_MT.get(tag, tag)
-    r = {"mt": mt, "ids": _xt(el, "idShort"), "tok": _tok(_xt(el, "category"), "T"), "quals": abs_quals_xml(el),
-         "children": [], "ctype": None, "value": None}
-    if mt in ("SubmodelElementCollection", "SubmodelElementList"):
-        v = el.find(NS + "value")
-        r["children"] = [] if v is None else [abs_elem_xml(c) for c in v]
-    if mt == "File":
-        r["ctype"], r["value"] = _xt(el, "contentType"), _xt(el, "value")
-    if mt == "Blob":
-        v = _xt(el, "value")
-        r["ctype"], r["value"] = _xt(el, "contentType"), (None if v is None else base64.b64decode(v).decode("utf-8"))
+def abs_elem_xml(el, mt=None):
+    if mt is None:
+        tag = etree.QName(el).localname
+        mt = XML_MT.get(tag, tag)
+    r = {"mt": mt, "ids": _xt(el, "idShort"), "tok": _tokx(el), "quals": abs_quals_xml(el),
+         "children": [], "ctype": 0, "val": None}
+    v = el.find(NS + "value")
+    if v is not None and len(v):
+        r["children"] = [abs_elem_xml(c) for c in v]
+    ct = _xt(el, "contentType")
+    if ct is not None:
+        r["ctype"] = _idx(CTYPES, ct)
+        if v is not None:
+            txt = v.text or ""
+            if mt == "Blob":
+                r["val"] = ("data", _idx(CONTENTS, base64.b64decode(txt)))
+            elif mt == "File":
+                r["val"] = ("path", txt)
+            else:   # class unknown (flattened single object): a File value is a path or URL, a Blob value is base64
+                r["val"] = ("raw", txt)
     return r
 
 
 def abs_ref_xml(el):
     ks = el.find(NS + "keys")
-    return {"k": "ref", "keys": [] if ks is None else [(_xt(k, "type"), _xt(k, "value")) for k in ks]}
+    return {"k": "keys", "keys": [] if ks is None else [(_xt(k, "type"), _xt(k, "value")) for k in ks]}
 
 
-def abs_xml_item(el):
+def abs_xml_item(el, flattened=False):
     tag = etree.QName(el).localname
     if tag == "assetAdministrationShell":
         ai = el.find(NS + "assetInformation")
@@ -208,18 +255,18 @@ def abs_xml_item(el):
                 "refs": [] if sms is None else [abs_ref_xml(r)["keys"][0][1] for r in sms]}
     if tag == "submodel":
         ses = el.find(NS + "submodelElements")
-        return {"k": "sm", "id": _xt(el, "id"), "ids": _xt(el, "idShort"), "tok": _tok(_xt(el, "category"), "T"),
+        return {"k": "sm", "id": _xt(el, "id"), "ids": _xt(el, "idShort"), "tok": _tokx(el),
                 "quals": abs_quals_xml(el), "elems": [] if ses is None else [abs_elem_xml(e) for e in ses]}
     if tag == "conceptDescription":
-        return {"k": "cd", "id": _xt(el, "id"), "ids": _xt(el, "idShort"), "tok": _tok(_xt(el, "category"), "T")}
-    if tag in XML_MT:
-        r = abs_elem_xml(el)
+        return {"k": "cd", "id": _xt(el, "id"), "ids": _xt(el, "idShort"), "tok": _tokx(el)}
+    if tag in XML_MT or tag == "anyElement":
+        r = abs_elem_xml(el, mt=("?" if flattened else None))
         r["k"] = "elem"
         return r
     if tag == "reference":
         return abs_ref_xml(el)
     if tag == "qualifier":
-        return {"k": "qual", "type": _xt(el, "type"), "val": _xt(el, "value")}
+        return {"k": "qual", "type": _xt(el, "type"), "val": _int(_xt(el, "value"))}
     if tag == "assetInformation":
         return {"k": "ai", "tok": _tok(_xt(el, "globalAssetId"), "urn:asset:")}
     return {"k": "unknown", "keys": [tag]}
@@ -227,8 +274,8 @@ def abs_xml_item(el):
 
 def abs_xml(data, hint):
     """XML response body -> abstract value.  A single object is flattened into <response> by the
-    server (children appended without their own element), so the expected kind (`hint`: 'shell',
-    'sm', 'cd', 'elem:<modelType>', 'ref', 'qual', 'ai', 'list', 'result') says how to read it."""
+    server (its children are appended without the element itself), so the expected kind (`hint`:
+    shell, sm, cd, elem, ref, qual, ai, list) says how to read it."""
     root = etree.fromstring(data)
     if etree.QName(root).localname != "response":
         return {"k": "unknown", "keys": [etree.QName(root).localname]}
@@ -241,30 +288,33 @@ def abs_xml(data, hint):
         items = [abs_xml_item(c) for c in root]
         return {"k": "page", "cursor": cursor, "items": items} if cursor is not None else items
     tagmap = {"shell": "assetAdministrationShell", "sm": "submodel", "cd": "conceptDescription", "ref": "reference",
-              "qual": "qualifier", "ai": "assetInformation"}
-    if hint.startswith("elem:"):
-        inv = {v: k for k, v in XML_MT.items()}
-        fake = etree.Element(NS + inv.get(hint[5:], hint[5:]))
-    else:
-        fake = etree.Element(NS + tagmap[hint])
-    for c in root:
+              "qual": "qualifier", "ai": "assetInformation", "elem": "anyElement"}
+    fake = etree.Element(NS + tagmap[hint])
+    for c in list(root):
         fake.append(c)
-    return abs_xml_item(fake)
+    return abs_xml_item(fake, flattened=True)
 
 
 # ------------------------------------------------------------------ store snapshot (independent of the server)
 
-def snap_elem(e):
-    r = {"mt": type(e).__name__, "ids": e.id_short, "tok": _tok(e.category, "T"),
-         "quals": sorted((q.type, q.value) for q in e.qualifier), "children": [], "ctype": None, "value": None}
+def _toko(o):
+    d = o.description
+    if d is not None and len(d) == 1 and "en" in d:
+        return _tok(d["en"], "T")
+    return -1
+
+
+def snap_elem(e, in_list=False):
+    r = {"mt": type(e).__name__, "ids": None if in_list else e.id_short, "tok": _toko(e),
+         "quals": [(q.type, _int(q.value)) for q in e.qualifier], "children": [], "ctype": 0, "val": None}
     if isinstance(e, model.SubmodelElementCollection):
         r["children"] = [snap_elem(c) for c in e.value]
     elif isinstance(e, model.SubmodelElementList):
-        r["children"] = [dict(snap_elem(c), ids=None) for c in e.value]
+        r["children"] = [snap_elem(c, True) for c in e.value]
     elif isinstance(e, model.File):
-        r["ctype"], r["value"] = e.content_type, e.value
+        r["ctype"], r["val"] = _idx(CTYPES, e.content_type), (None if e.value is None else ("path", e.value))
     elif isinstance(e, model.Blob):
-        r["ctype"], r["value"] = e.content_type, (None if e.value is None else e.value.decode("utf-8", "replace"))
+        r["ctype"], r["val"] = _idx(CTYPES, e.content_type), (None if e.value is None else ("data", _idx(CONTENTS, e.value)))
     return r
 
 
@@ -272,26 +322,210 @@ def snap_obj(o):
     if isinstance(o, model.AssetAdministrationShell):
         return {"k": "shell", "id": o.id, "ids": o.id_short,
                 "tok": _tok(o.asset_information.global_asset_id, "urn:asset:"),
-                "refs": sorted(r.key[0].value for r in o.submodel)}
+                "refs": [r.key[0].value for r in o.submodel]}
     if isinstance(o, model.Submodel):
-        return {"k": "sm", "id": o.id, "ids": o.id_short, "tok": _tok(o.category, "T"),
-                "quals": sorted((q.type, q.value) for q in o.qualifier),
+        return {"k": "sm", "id": o.id, "ids": o.id_short, "tok": _toko(o),
+                "quals": [(q.type, _int(q.value)) for q in o.qualifier],
                 "elems": [snap_elem(e) for e in o.submodel_element]}
     if isinstance(o, model.ConceptDescription):
-        return {"k": "cd", "id": o.id, "ids": o.id_short, "tok": _tok(o.category, "T")}
-    return {"k": type(o).__name__}
+        return {"k": "cd", "id": o.id, "ids": o.id_short, "tok": _toko(o)}
+    return {"k": "unknown", "keys": [type(o).__name__]}
 
 
-def snapshot(store, files):
-    """Canonical snapshot of the object store (by key, through the public store API) and of the
-    file container.  For a local-file store the objects are re-read through a fresh store."""
-    objs = []
-    for o in store:
-        objs.append(snap_obj(o))
-    objs.sort(key=lambda d: json.dumps(d, sort_keys=True, default=str))
+def snap_files(files):
     fl = []
     for name in files:
         b = io.BytesIO()
         files.write_file(name, b)
-        fl.append((name, files.get_content_type(name), b.getvalue().decode("latin-1")))
-    return json.dumps({"objects": objs, "files": sorted(fl)}, sort_keys=True, default=str)
+        fl.append((name, _idx(CONTENTS, b.getvalue()), _idx(CTYPES, files.get_content_type(name))))
+    return fl
+
+
+def snapshot(store, files):
+    """canonical text snapshot of store + container for the before/after comparison of the oracle"""
+    objs = sorted(json.dumps(snap_obj(o), sort_keys=True, default=str) for o in store)
+    return json.dumps({"objects": objs, "files": sorted(snap_files(files))}, sort_keys=True, default=str)
+
+
+# ------------------------------------------------------------------ rows of integers (mirror of HttpObs.v)
+
+class Sym:
+    """strings (identifiers, idShorts, qualifier types) -> numbers, in order of first use"""
+    def __init__(self):
+        self.t = {}
+
+    def __call__(self, s):
+        if s not in self.t:
+            self.t[s] = len(self.t) + 1
+        return self.t[s]
+
+
+def enc_on(sym, s):
+    return [0] if s is None else [1, sym(s)]
+
+
+def enc_quals(sym, q):
+    return [len(q)] + [x for (t, v) in q for x in (sym(t), v)]
+
+
+def enc_val(v):
+    if v is None:
+        return [0]
+    if v[0] == "path":
+        return [1, len(v[1])] + [ord(c) for c in v[1]]
+    if v[0] == "data":
+        return [2, v[1]]
+    # flattened XML: decide by content (a Blob value is base64 of a known content)
+    try:
+        b = base64.b64decode(v[1], validate=True)
+        if b in CONTENTS and not v[1].startswith(("/", "http")):
+            return [2, CONTENTS.index(b)]
+    except (binascii.Error, ValueError):
+        pass
+    return [1, len(v[1])] + [ord(c) for c in v[1]]
+
+
+def enc_elem(sym, e):
+    out = [MT.get(e["mt"], 0)] + enc_on(sym, e["ids"]) + [e["tok"]] + enc_quals(sym, e["quals"]) + [e["ctype"]] \
+        + enc_val(e["val"]) + [len(e["children"])]
+    for c in e["children"]:
+        out += enc_elem(sym, c)
+    return out
+
+
+KEYROOT = {"AssetAdministrationShell": 0, "Submodel": 1}
+
+
+def enc_value(sym, a):
+    k = a.get("k")
+    if k == "shell":
+        return [1, sym(a["id"])] + enc_on(sym, a["ids"]) + [a["tok"], len(a["refs"])] + sorted(sym(r) for r in a["refs"])
+    if k == "sm":
+        out = [2, sym(a["id"])] + enc_on(sym, a["ids"]) + [a["tok"]] + enc_quals(sym, a["quals"]) + [len(a["elems"])]
+        for e in a["elems"]:
+            out += enc_elem(sym, e)
+        return out
+    if k == "cd":
+        return [3, sym(a["id"])] + enc_on(sym, a["ids"]) + [a["tok"]]
+    if k == "elem":
+        return [4] + enc_elem(sym, a)
+    if k == "qual":
+        return [5, sym(a["type"]), a["val"]]
+    if k == "ai":
+        return [7, a["tok"]]
+    if k == "keys":
+        ks = a["keys"]
+        if not ks:
+            return [8, -1]
+        out = [8, KEYROOT.get(ks[0][0], -1), sym(ks[0][1]), len(ks) - 1]
+        for (t, v) in ks[1:]:
+            out += [MT.get(t, 0)] + enc_on(sym, v)
+        return out
+    return [-9]
+
+
+ACC = {"application/json": 1, "application/xml": 2, "text/xml": 3}
+
+
+def enc_payload_api(sym, acc, a, sorted_):
+    """a: abstract payload of an API response (None = empty body)"""
+    if a is None:
+        return [0, acc]
+    if isinstance(a, dict) and a.get("k") == "result":
+        code = a["codes"][0] if a["codes"] else ""
+        ok = a["success"] is False and a["types"] == ["Error"] and len(a["codes"]) == 1
+        return [1, acc] + [ord(c) for c in code] + ([] if ok else [-7])
+    if isinstance(a, dict) and a.get("k") == "page" or isinstance(a, list):
+        items = a["items"] if isinstance(a, dict) else a
+        cur = [1, _int(a["cursor"])] if isinstance(a, dict) else [0]
+        rows = [enc_value(sym, x) for x in items]
+        if sorted_:
+            rows.sort()
+        return [3, acc] + cur + [len(rows)] + [x for r in rows for x in r]
+    if a.get("k") == "elem":
+        e = enc_elem(sym, a)
+        if acc != 1:
+            e = [0] + e[1:]
+        return [2, acc, 4] + e
+    return [2, acc] + enc_value(sym, a)
+
+
+def enc_state(sym, store, files, backed):
+    rows = [enc_value(sym, snap_obj(o)) for o in store]
+    if backed:
+        rows.sort()
+    out = [len(rows)] + [x for r in rows for x in r] + [-1]
+    for (name, c, t) in snap_files(files):
+        out += [len(name)] + [ord(ch) for ch in name] + [c, t]
+    return out
+
+
+# ------------------------------------------------------------------ Coq term printers
+
+def cz(n):
+    return f"({n})" if n < 0 else str(n)
+
+
+def cstr(s):
+    assert all(32 <= ord(c) < 127 for c in s), repr(s)
+    return '"' + s.replace('"', '""') + '"'
+
+
+def con(sym, s):
+    return "None" if s is None else f"(Some {sym(s)})"
+
+
+def cquals(sym, q):
+    return "[" + "; ".join(f"({sym(t)}, {cz(v)})" for (t, v) in q) + "]"
+
+
+def cval(v):
+    if v is None:
+        return "ANone"
+    if v[0] == "path":
+        return f"(APath {cstr(v[1])})"
+    return f"(AData {v[1]}%nat)"
+
+
+def celem(sym, e, in_list=False):
+    ch = "[" + "; ".join(f"({'None' if e['mt'] == 'SubmodelElementList' else con(sym, c.get('key', c['ids']))}, "
+                         f"{celem(sym, c)})" for c in e.get("children", [])) + "]"
+    return (f"(Elem {MTC[e['mt']]} {con(sym, e['ids'])} {cz(e['tok'])} {cquals(sym, e.get('quals', []))} "
+            f"{e.get('ctype', 0)}%nat {cval(e.get('val'))} {ch})")
+
+
+def cchildren(sym, elems):
+    return "[" + "; ".join(f"({con(sym, c.get('key', c['ids']))}, {celem(sym, c)})" for c in elems) + "]"
+
+
+def cvalue(sym, a):
+    k = a["k"]
+    if k == "shell":
+        return (f"(VShell (mksh {sym(a['id'])} {con(sym, a['ids'])} {cz(a['tok'])} "
+                f"[{'; '.join(str(sym(r)) for r in a.get('refs', []))}]))")
+    if k == "sm":
+        return (f"(VSm (mksm {sym(a['id'])} {con(sym, a['ids'])} {cz(a['tok'])} {cquals(sym, a.get('quals', []))} "
+                f"{cchildren(sym, a.get('elems', []))}))")
+    if k == "cd":
+        return f"(VCd (mkcd {sym(a['id'])} {con(sym, a['ids'])} {cz(a['tok'])}))"
+    if k == "elem":
+        return f"(VElem {celem(sym, a)})"
+    if k == "qual":
+        return f"(VQual {sym(a['type'])} {cz(a['val'])})"
+    if k == "ref":
+        return f"(VRef {sym(a['id'])})"
+    if k == "ai":
+        return f"(VAsset {cz(a['tok'])})"
+    raise ValueError(k)
+
+
+def cobj(sym, a):
+    v = cvalue(sym, a)
+    ctor = {"shell": "OShell", "sm": "OSm", "cd": "OCd"}[a["k"]]
+    inner = v[v.index(" ") + 1:-1]
+    return f"({sym(a.get('key', a['id']))}, {ctor} {inner})"
+
+
+def cstate(sym, objs, files, backed):
+    fl = "[" + "; ".join(f"({cstr(n)}, {c}%nat, {t}%nat)" for (n, c, t) in files) + "]"
+    return f"(mkst [{'; '.join(cobj(sym, o) for o in objs)}] (mkfiles {fl}) {'true' if backed else 'false'})"
